@@ -39,7 +39,7 @@ NEW = [
     ['c9\tz\texon\t7\t9\t.\t+\t.\tgene_id "n1"; transcript_id "nt1";'],
     ["##other directive", "c9\tz\tgene\t7\t9\t.\t+\t.\tID=g1", "c9\tz\tmRNA\t7\t9\t.\t+\t.\tID=n2;Parent=g1"],
 ]
-KINDS = ("gff3", "gtf", "gff3_updated", "gtf_noinfer")
+KINDS = ("gff3", "gtf", "gff3_updated", "gtf_noinfer", "gff3_emptied")
 
 CALLS = ["getitem", "all_features", "features_of_type", "children", "parents", "region_str", "region_within", "interfeatures",
          "create_introns", "create_splice_sites", "merge", "children_bp", "children_bp_merge", "bed12", "counts", "listings",
@@ -52,7 +52,7 @@ def bounds(tier):
 
 def shards(tier):
     out = [("clobber", k, ni) for k in KINDS for ni in range(len(NEW))]
-    out += [("reads", k, c) for k in KINDS for c in range(len(CALLS))]
+    out += [("reads", k, c) for k in KINDS if k != "gff3_emptied" for c in range(len(CALLS))]
     return out
 
 
@@ -68,6 +68,9 @@ def pristine(ctx, kind):
         if kind == "gff3_updated":
             u = dbutil.write_text(d, "upd.gff", "\n".join(UPD) + "\n")
             db.update(u, make_backup=False, verbose=False)
+        if kind == "gff3_emptied":
+            # every feature was deleted again: the file is still a database (directives, dialect, counters, schema)
+            db.delete([f.id for f in db.all_features()], make_backup=False)
         dbutil.close_db(db)
         ctx.memo[key] = (path, dbutil.canon(path), open(path, "rb").read())
     return ctx.memo[key]
@@ -76,7 +79,7 @@ def pristine(ctx, kind):
 def body_clobber(ch, ctx):
     _, kind, ni = ctx.shard
     force = ch.flag("force")
-    via = ch.choose("input", ("path", "from_string"))
+    via = ch.choose("input", ("path", "from_string", "features"))
     ppath, pcanon, pbytes = pristine(ctx, kind)
     wd = ctx.fresh_dir()
     target = os.path.join(wd, "t.db")
@@ -86,7 +89,14 @@ def body_clobber(ch, ctx):
         list(old.all_features())
         dbutil.close_db(old)
     text = "\n".join(NEW[ni]) + "\n"
-    data = dbutil.write_text(wd, "new.txt", text) if via == "path" else text
+    from gffutils.feature import feature_from_line
+    if via == "features":
+        def data_factory():
+            return [feature_from_line(t) for t in NEW[ni] if not t.startswith("#")]
+    else:
+        def data_factory():
+            return dbutil.write_text(wd, "new.txt", text) if via == "path" else text
+    data = data_factory()
     kw = dict(from_string=True) if via == "from_string" else {}
     sig = dict(old=kind, force=force)
     ctx.sample(lambda: dict(old=kind, new=NEW[ni], force=force, input=via))
@@ -108,7 +118,9 @@ def body_clobber(ch, ctx):
         return
     if not ctx.check(raised is None, "force-import-raised", dict(sig, exc=type(raised).__name__), message=str(raised)[:200]):
         return
-    fresh = gffutils.create_db(data, os.path.join(wd, "fresh.db"), verbose=False, **kw)
+    fresh = gffutils.create_db(data_factory(), os.path.join(wd, "fresh.db"), verbose=False, **kw)
+    exp_dirs = [t[2:] for t in NEW[ni] if t.startswith("##")] if via != "features" else []
+    ctx.check(db.directives == exp_dirs, "forced-import-has-foreign-directives", dict(sig, input=via), got=db.directives, expected=exp_dirs)
     ctx.check(db.directives == fresh.directives and db.dialect == fresh.dialect
               and [str(f) for f in db.all_features()] == [str(f) for f in fresh.all_features()],
               "object-returned-by-forced-import-shows-old-database", sig, directives=db.directives, expected=fresh.directives,
